@@ -54,3 +54,26 @@ a, b = '<!-- FIXES-TABLE:BEGIN -->', '<!-- FIXES-TABLE:END -->'
 if a in s:
     s = re.sub(re.escape(a) + '.*?' + re.escape(b), lambda m: a + '\n' + ftable + '\n' + b, s, flags=re.S)
     open(p, 'w').write(s)
+
+# ---- table of mutation sweeps (DESIGN.md section 12b)
+import collections
+mrows = []
+mtot = collections.Counter()
+for f in sorted(glob.glob(os.path.join(HERE, 'notes', 'mutation', 'C*.json'))):
+    try:
+        d = json.load(open(f))
+    except Exception:
+        continue
+    c = collections.Counter(r.get('status', '?') for r in d)
+    mtot.update(c)
+    mrows.append('| %s | %d | %d | %d | %d |' % (os.path.basename(f)[:-5], len(d), c.get('killed', 0), c.get('detected-no-input', 0),
+                                              len(d) - c.get('killed', 0) - c.get('detected-no-input', 0)))
+mrows.append('| **total** | %d | %d | %d | %d |' % (sum(mtot.values()), mtot.get('killed', 0), mtot.get('detected-no-input', 0),
+                                                   sum(mtot.values()) - mtot.get('killed', 0) - mtot.get('detected-no-input', 0)))
+mtable = ('| sweep report | mutants run | reported with a concrete failing input | reported as model mismatch only | not reported (triaged in notes/Cxx.md) |\n'
+          '|---|---|---|---|---|\n' + '\n'.join(mrows))
+s = open(p).read()
+a, b = '<!-- MUTATION-TABLE:BEGIN -->', '<!-- MUTATION-TABLE:END -->'
+if a in s:
+    s = re.sub(re.escape(a) + '.*?' + re.escape(b), lambda m: a + '\n' + mtable + '\n' + b, s, flags=re.S)
+    open(p, 'w').write(s)
